@@ -1,6 +1,8 @@
 package dawn
 
 import (
+	"crypto/rand"
+	"encoding/hex"
 	"encoding/json"
 	"fmt"
 	"io"
@@ -10,6 +12,7 @@ import (
 	"path/filepath"
 	"regexp"
 	"sort"
+	"strconv"
 	"strings"
 	"sync"
 	"time"
@@ -407,7 +410,25 @@ type targetInfo struct {
 	Doc          string            `json:"doc,omitempty"`
 	Dependencies map[string]string `json:"dependencies,omitempty"`
 	Data         string            `json:"stamp,omitempty"`
+	Run          string            `json:"run,omitempty"`
 	Rerun        bool              `json:"rerun,omitempty"`
+}
+
+// stamp returns the value dependents compare against: the target's data plus the ID of the run
+// that produced it.
+func (info targetInfo) stamp() string {
+	if info.Run == "" {
+		return info.Data
+	}
+	return info.Data + "@" + info.Run
+}
+
+func newRunID() string {
+	var b [8]byte
+	if _, err := rand.Read(b[:]); err != nil {
+		return strconv.FormatInt(time.Now().UnixNano(), 16)
+	}
+	return hex.EncodeToString(b[:])
 }
 
 func (proj *Project) targetInfoPath(l *label.Label) string {
